@@ -10,16 +10,11 @@
 (* request history that produces it (BFS path of the source state + the    *)
 (* request); the harness replays those histories on the real emulator.     *)
 (***************************************************************************)
-EXTENDS BtData, Json, TLC
+EXTENDS MCBase
 
 CONSTANTS MaxCells,      \* state constraint: at most this many cells in the table
           Pairs,         \* TRUE: also all two-mutation lists
-          TwoKeys,       \* TRUE: keys a and a\x00, FALSE: only a
-          DumpEdges,     \* TRUE: print the request history of generated transitions
-          SampleK        \* print one transition in SampleK (1 = all)
-
-VARIABLES st, path, last
-vars == <<st, path, last>>
+          TwoKeys        \* TRUE: keys a and a\x00, FALSE: only a
 
 TName  == <<116, 49>>                 \* "t1" (the harness maps it to a full table name)
 Parent == <<112>>
@@ -49,17 +44,7 @@ Muts2 == {m \in Muts : (m.m = "set" => (m.q = <<113>> /\ m.v = <<121>> /\ m.ts \
 CreateOp == [ev |-> "CreateTable", t |-> TName, parent |-> Parent,
              fams |-> <<[f |-> FamF, rule |-> [t |-> "none"]], [f |-> FamG, rule |-> [t |-> "none"]]>>]
 
-NCells(s) == LET rows == s.tables[TName].rows IN
-             Cardinality({<<k, c, t>> \in UNION {UNION {{<<k2, c2, t2>> : t2 \in DOMAIN rows[k2][c2]} : c2 \in DOMAIN rows[k2]} : k2 \in DOMAIN rows} : TRUE})
-
-Init == /\ st = (CHOOSE o \in CreateTable(InitSt, CreateOp) : TRUE).st
-        /\ path = <<CreateOp>>
-        /\ last = [ok |-> TRUE]
-
-Do(op) == \E o \in Step(st, op) :
-            /\ st' = o.st
-            /\ path' = Append(path, op)
-            /\ last' = [ok |-> o.resp.ok, changed |-> o.st # st]
+Init == InitWith(<<CreateOp>>)
 
 MutateOne  == \E k \in Keys, m \in Muts, now \in Clocks :
                 Do([ev |-> "MutateRow", t |-> TName, k |-> k, muts |-> <<m>>, now |-> now])
@@ -74,14 +59,6 @@ MutateBulk == /\ Pairs
 Next == MutateOne \/ MutateTwo \/ MutateBulk
 Spec == Init /\ [][Next]_vars
 
-Bound == NCells(st) <= MaxCells
-Dump  == (DumpEdges /\ Len(path) > 1 /\ RandomElement(1..SampleK) = 1) => PrintT(<<"PATH", ToJson(path)>>)
+Bound == TotalCells(st) <= MaxCells
 Constr == Bound /\ Dump
-
-View == st
-
-(* invariants / action properties of the design *)
-InvCanonical == Canonical(st)
-\* a failed request changes nothing (all-or-nothing)
-FailedIsNoop == [][(~last'.ok) => st' = st]_vars
 =============================================================================
